@@ -161,7 +161,7 @@ namespace {
           sink->push_back(out); // the statements of the outermost block are kept apart so that replays can be shrunk
           out.clear();
         }
-        const int k = int(rng.below(d <= 0 ? 12 : 25));
+        const int k = int(rng.below(d <= 0 ? 12 : 26));
         switch (k) {
         case 0:
         case 1:
@@ -264,6 +264,17 @@ namespace {
         case 21: {
           const std::string x = nm("r");
           out += "var &" + x + " = held_ref(); by_ref(" + x + "); ";
+          break;
+        }
+        case 25: {
+          // a const derived object held by shared_ptr, converted to its base through a typed script
+          // parameter; the converted value outlives the call and the temporary it came from
+          const std::string kb = nm("kb");
+          switch (rng.below(3)) {
+          case 0: out += "var " + kb + " = as_base(make_const_derived(" + num() + ")); by_cref(" + kb + "); t(" + kb + ".value()); "; break;
+          case 1: out += "var " + kb + " = fun(Tracked b) { return fun[b]() { return by_cref(b) } }(make_const_derived(" + num() + ")); " + kb + "(); "; break;
+          default: out += "keep_value(as_base(make_const_derived(" + num() + "))); "; break;
+          }
           break;
         }
         case 22: {
@@ -375,6 +386,7 @@ namespace {
     {
       std::vector<std::shared_ptr<Tracked>> holders;
       std::vector<Holder> holder_objs;
+      std::vector<Boxed_Value> kept_values; // script values the host keeps (boxed)
       std::vector<int> trace;
       Tracked cpp_owned(4242); // a C++ object the script only ever sees by reference (not created on its behalf)
       const int cpp_owned_id = cpp_owned.id;
@@ -429,6 +441,9 @@ namespace {
               "same");
         e.eval("def mk(n) { var tmp = Tracked(n); tmp.set_value(n + 1); return tmp }");
         e.eval("def mkref(n) { same(Tracked(n)) }");
+        e.add(fun([](int v) { return std::shared_ptr<const TrackedDerived>(std::make_shared<TrackedDerived>(v)); }), "make_const_derived");
+        e.add(fun([&kept_values](const Boxed_Value &bv) { kept_values.push_back(bv); }), "keep_value");
+        e.eval("def as_base(Tracked b) { return b }");
 
         Boxed_Value result;
         try {
@@ -451,6 +466,13 @@ namespace {
         for (auto &h : holder_objs) {
           if (h.p) {
             reach.insert(h.p->id);
+          }
+        }
+        for (auto &kv : kept_values) {
+          reachable(kv, e, reach);
+          try {
+            (void)e.boxed_cast<const Tracked &>(kv).value(); // still usable
+          } catch (const exception::bad_boxed_cast &) {
           }
         }
         for (const char *gname : {"G0", "G1"}) {
@@ -494,6 +516,7 @@ namespace {
       }
       holders.clear();
       holder_objs.clear();
+      kept_values.clear();
       std::set<int> live = reg.live();
       live.erase(cpp_owned_id);
       if (!live.empty() && res.rule.empty()) {
